@@ -1,4 +1,5 @@
-(* C01: the per-face kernel of M_slicing.v — soundness, orientation, coverage, area. *)
+(* C01: the per-face kernel of M_slicing.v (distances snapped to the merge tolerance) — case facts, soundness,
+   orientation, area.  "In front" means snapped distance > tol, "behind" < -tol, "on" = 0. *)
 From Coq Require Import ZArith Reals Lra Psatz List Bool Lia Arith.
 From PW Require Import Num NumR Vec NpList Result.
 From PW.model Require Import M_slicing.
@@ -6,7 +7,9 @@ From PW.proofs Require Import P_vec P_nplist P_slicing.
 Import ListNotations.
 Local Open Scope R_scope.
 
-(* ---- what each branch of the case split knows about the corner offsets ------------------------------------ *)
+Definition pd (n o : vec3 R) (v : vec3 R) : R := plane_dot ROps n o v.
+
+(* ---- what each branch of the case split knows about the (snapped) corner distances ------------------------ *)
 Lemma vsign_ge0 tol d : (0 <= vsign ROps tol d)%Z -> d <= tol.
 Proof.
   intros H. destruct (Rle_dec d tol) as [|Hn]; [assumption|]. exfalso.
@@ -18,52 +21,63 @@ Proof.
   assert (Hf : d < - tol) by lra. apply (vsign_behind tol d Ht) in Hf. lia.
 Qed.
 
-Definition pd (n o : vec3 R) (v : vec3 R) : R := plane_dot ROps n o v.
+(* every distance the kernel uses is 0 or further than tol from 0 *)
+Definition snapped3 (tol : R) (ds : R * R * R) : Prop :=
+  forall k, (k < 3)%nat -> dget ds k = 0 \/ tol < dget ds k \/ dget ds k < - tol.
+Lemma tri_dists_snapped tol n o t : 0 <= tol -> snapped3 tol (tri_dists ROps tol n o t).
+Proof. intros Ht k Hk. rewrite dget_tri_dists by exact Hk. apply snap_range, Ht. Qed.
+Lemma snapped_nonpos tol ds k : 0 <= tol -> snapped3 tol ds -> (k < 3)%nat -> dget ds k <= tol -> dget ds k <= 0.
+Proof. intros Ht H Hk Hd. destruct (H k Hk) as [E|[E|E]]; lra. Qed.
+Lemma snapped_nonneg tol ds k : 0 <= tol -> snapped3 tol ds -> (k < 3)%nat -> - tol <= dget ds k -> 0 <= dget ds k.
+Proof. intros Ht H Hk Hd. destruct (H k Hk) as [E|[E|E]]; lra. Qed.
 
-Lemma face_case_facts tol n o t m : 0 <= tol ->
-  match face_case (tri_signs ROps tol n o t) m with
-  | Keep => m = false \/ (forall k, (k < 3)%nat -> - tol <= pd n o (tget t k))
-  | Drop => m = true /\ (forall k, (k < 3)%nat -> pd n o (tget t k) <= tol)
-  | CQuad k => m = true /\ (k < 3)%nat /\ pd n o (tget t k) < - tol /\
-               tol < pd n o (tget t ((k + 1) mod 3)) /\ tol < pd n o (tget t ((k + 2) mod 3))
-  | CTri k => m = true /\ (k < 3)%nat /\ tol < pd n o (tget t k) /\
-              pd n o (tget t ((k + 1) mod 3)) <= tol /\ pd n o (tget t ((k + 2) mod 3)) <= tol
+Lemma face_case_facts tol ds m : 0 <= tol ->
+  match face_case (signs3 ROps tol ds) m with
+  | Keep => m = false \/ (forall k, (k < 3)%nat -> - tol <= dget ds k)
+  | Drop => m = true /\ (forall k, (k < 3)%nat -> dget ds k <= tol)
+  | CQuad k => m = true /\ (k < 3)%nat /\ dget ds k < - tol /\
+               tol < dget ds ((k + 1) mod 3) /\ tol < dget ds ((k + 2) mod 3)
+  | CTri k => m = true /\ (k < 3)%nat /\ tol < dget ds k /\
+              dget ds ((k + 1) mod 3) <= tol /\ dget ds ((k + 2) mod 3) <= tol
   end.
 Proof.
-  intros Ht. pose proof (case_ok_signs tol n o t m) as H. unfold case_ok in H.
-  destruct (face_case (tri_signs ROps tol n o t) m) as [| |k|k].
+  intros Ht. pose proof (case_ok_signs tol ds m) as H. unfold case_ok in H.
+  destruct (face_case (signs3 ROps tol ds) m) as [| |k|k].
   - apply orb_prop in H. destruct H as [H|H]; [left; destruct m; [discriminate|reflexivity]|right].
     apply andb_prop in H; destruct H as [H H2]. apply andb_prop in H; destruct H as [H0 H1].
-    apply Z.leb_le in H0, H1, H2. rewrite sget_tri_signs in H0, H1, H2 by lia.
+    apply Z.leb_le in H0, H1, H2. rewrite sget_signs3 in H0, H1, H2 by lia.
     intros k Hk. destruct k as [|[|[|k]]]; try lia; apply vsign_le0; assumption.
   - apply andb_prop in H; destruct H as [H _]. apply andb_prop in H; destruct H as [Hm H].
     apply andb_prop in H; destruct H as [H H2]. apply andb_prop in H; destruct H as [H0 H1].
-    apply Z.leb_le in H0, H1, H2. rewrite sget_tri_signs in H0, H1, H2 by lia.
+    apply Z.leb_le in H0, H1, H2. rewrite sget_signs3 in H0, H1, H2 by lia.
     split; [exact Hm|]. intros k Hk. destruct k as [|[|[|k]]]; try lia; apply vsign_ge0; assumption.
   - repeat (apply andb_prop in H; let H' := fresh "H" in destruct H as [H H']).
     apply Nat.ltb_lt in H3. destruct k as [|[|[|k]]]; try lia; cbn [Nat.add Nat.modulo Nat.divmod fst snd Nat.sub] in *;
-      apply Z.eqb_eq in H2, H1, H0; rewrite sget_tri_signs in H2, H1, H0 by lia;
+      apply Z.eqb_eq in H2, H1, H0; rewrite sget_signs3 in H2, H1, H0 by lia;
       apply (vsign_behind _ _ Ht) in H2; apply vsign_front in H1, H0; repeat split; try assumption; lia.
   - repeat (apply andb_prop in H; let H' := fresh "H" in destruct H as [H H']).
     apply Nat.ltb_lt in H4. destruct k as [|[|[|k]]]; try lia; cbn [Nat.add Nat.modulo Nat.divmod fst snd Nat.sub] in *;
-      apply Z.eqb_eq in H3; apply Z.leb_le in H2, H1; rewrite sget_tri_signs in H3, H2, H1 by lia;
+      apply Z.eqb_eq in H3; apply Z.leb_le in H2, H1; rewrite sget_signs3 in H3, H2, H1 by lia;
       apply vsign_front in H3; apply vsign_ge0 in H2, H1; repeat split; try assumption; lia.
 Qed.
 
 (* ---- rotation of the corner order -------------------------------------------------------------------------- *)
 Definition rot3 (t : tri R) (k : nat) : tri R := (tget t k, tget t ((k + 1) mod 3), tget t ((k + 2) mod 3)).
+Definition rotd (ds : R * R * R) (k : nat) : R * R * R := (dget ds k, dget ds ((k + 1) mod 3), dget ds ((k + 2) mod 3)).
 Definition tri_corners (t : tri R) : list (vec3 R) := [tget t 0; tget t 1; tget t 2].
 
 (* the two cut shapes on a face whose corner 0 is the special one *)
-Definition tri0 (eps : R) (n o : vec3 R) (t : tri R) : list (tri R) :=
-  [(tget t 0, int_point ROps eps n o (tget t 0) (tget t 1), int_point ROps eps n o (tget t 2) (tget t 0))].
-Definition quad0 (eps : R) (n o : vec3 R) (t : tri R) : list (tri R) :=
-  [(tget t 1, tget t 2, int_point ROps eps n o (tget t 2) (tget t 0));
-   (tget t 1, int_point ROps eps n o (tget t 2) (tget t 0), int_point ROps eps n o (tget t 0) (tget t 1))].
+Definition tri0 (eps : R) (ds : R * R * R) (t : tri R) : list (tri R) :=
+  [(tget t 0, int_point ROps eps (dget ds 0) (dget ds 1) (tget t 0) (tget t 1),
+    int_point ROps eps (dget ds 2) (dget ds 0) (tget t 2) (tget t 0))].
+Definition quad0 (eps : R) (ds : R * R * R) (t : tri R) : list (tri R) :=
+  [(tget t 1, tget t 2, int_point ROps eps (dget ds 2) (dget ds 0) (tget t 2) (tget t 0));
+   (tget t 1, int_point ROps eps (dget ds 2) (dget ds 0) (tget t 2) (tget t 0),
+    int_point ROps eps (dget ds 0) (dget ds 1) (tget t 0) (tget t 1))].
 
-Lemma cut_tris_rot eps n o t k : (k < 3)%nat -> cut_tris ROps eps n o t k = tri0 eps n o (rot3 t k).
+Lemma cut_tris_rot eps ds t k : (k < 3)%nat -> cut_tris ROps eps ds t k = tri0 eps (rotd ds k) (rot3 t k).
 Proof. intros Hk. destruct k as [|[|[|k]]]; try lia; reflexivity. Qed.
-Lemma quad_tris_rot eps n o t k : (k < 3)%nat -> quad_tris ROps eps n o t k = quad0 eps n o (rot3 t k).
+Lemma quad_tris_rot eps ds t k : (k < 3)%nat -> quad_tris ROps eps ds t k = quad0 eps (rotd ds k) (rot3 t k).
 Proof. intros Hk. destruct k as [|[|[|k]]]; try lia; reflexivity. Qed.
 
 Lemma in_tri_rot t k x : (k < 3)%nat -> in_tri (rot3 t k) x <-> in_tri t x.
@@ -84,7 +98,23 @@ Proof.
     unfold rot3; cbn [tget fst snd Nat.add Nat.modulo Nat.divmod Nat.sub]; dvec; tunf; apply V3_ext; ring.
 Qed.
 
-(* ---- convexity ------------------------------------------------------------------------------------------------ *)
+(* ---- points of a face whose interpolated (snapped) distance is not negative -------------------------------- *)
+Definition wdot (ds : R * R * R) (w0 w1 w2 : R) : R := w0 * dget ds 0 + w1 * dget ds 1 + w2 * dget ds 2.
+Definition in_tri_nn (t : tri R) (ds : R * R * R) (x : vec3 R) : Prop :=
+  exists w0 w1 w2, 0 <= w0 /\ 0 <= w1 /\ 0 <= w2 /\ w0 + w1 + w2 = 1 /\ x = bary t w0 w1 w2 /\ 0 <= wdot ds w0 w1 w2.
+
+Lemma in_tri_nn_in_tri t ds x : in_tri_nn t ds x -> in_tri t x.
+Proof. intros (w0 & w1 & w2 & H0 & H1 & H2 & Hs & E & _). exists w0, w1, w2. auto. Qed.
+Lemma in_tri_nn_rot t ds k x : (k < 3)%nat -> in_tri_nn (rot3 t k) (rotd ds k) x -> in_tri_nn t ds x.
+Proof.
+  intros Hk. destruct t as [[a b] c]. destruct ds as [[da db] dc]. unfold in_tri_nn, wdot.
+  destruct k as [|[|[|k]]]; try lia; unfold rot3, rotd; cbn [tget dget fst snd Nat.add Nat.modulo Nat.divmod Nat.sub];
+    intros (w0 & w1 & w2 & H0 & H1 & H2 & Hs & -> & Hd).
+  - exists w0, w1, w2. repeat split; auto.
+  - exists w2, w0, w1. repeat split; auto; [lra| |lra]. dvec. tunf. apply V3_ext; ring.
+  - exists w1, w2, w0. repeat split; auto; [lra| |lra]. dvec. tunf. apply V3_ext; ring.
+Qed.
+
 Lemma corner_in_tri t k : (k < 3)%nat -> in_tri t (tget t k).
 Proof.
   intros Hk. destruct t as [[a b] c]. destruct k as [|[|[|k]]]; try lia; cbn [tget fst snd].
@@ -92,23 +122,35 @@ Proof.
   - exists 0, 1, 0. repeat split; try lra. dvec. tunf. apply V3_ext; ring.
   - exists 0, 0, 1. repeat split; try lra. dvec. tunf. apply V3_ext; ring.
 Qed.
-Lemma lerp01_in_tri t s : 0 <= s <= 1 -> in_tri t (lerp (tget t 0) (tget t 1) s).
+Lemma corner_nn t ds k : (k < 3)%nat -> 0 <= dget ds k -> in_tri_nn t ds (tget t k).
 Proof.
-  intros Hs. destruct t as [[a b] c]. exists (1 - s), s, 0. repeat split; try lra. dvec. tunf. apply V3_ext; ring.
+  intros Hk Hd. destruct t as [[a b] c]. destruct ds as [[da db] dc]. unfold in_tri_nn, wdot.
+  destruct k as [|[|[|k]]]; try lia; cbn [tget dget fst snd] in *.
+  - exists 1, 0, 0. repeat split; try lra. dvec. tunf. apply V3_ext; ring.
+  - exists 0, 1, 0. repeat split; try lra. dvec. tunf. apply V3_ext; ring.
+  - exists 0, 0, 1. repeat split; try lra. dvec. tunf. apply V3_ext; ring.
 Qed.
-Lemma lerp20_in_tri t s : 0 <= s <= 1 -> in_tri t (lerp (tget t 2) (tget t 0) s).
+Lemma lerp01_nn t ds s : 0 <= s <= 1 -> 0 <= dget ds 0 + s * (dget ds 1 - dget ds 0) ->
+  in_tri_nn t ds (lerp (tget t 0) (tget t 1) s).
 Proof.
-  intros Hs. destruct t as [[a b] c]. exists s, 0, (1 - s). repeat split; try lra. dvec. tunf. apply V3_ext; ring.
+  intros Hs Hd. destruct t as [[a b] c]. destruct ds as [[da db] dc]. unfold in_tri_nn, wdot. cbn [tget dget fst snd] in *.
+  exists (1 - s), s, 0. repeat split; try lra. dvec. tunf. apply V3_ext; ring.
+Qed.
+Lemma lerp20_nn t ds s : 0 <= s <= 1 -> 0 <= dget ds 2 + s * (dget ds 0 - dget ds 2) ->
+  in_tri_nn t ds (lerp (tget t 2) (tget t 0) s).
+Proof.
+  intros Hs Hd. destruct t as [[a b] c]. destruct ds as [[da db] dc]. unfold in_tri_nn, wdot. cbn [tget dget fst snd] in *.
+  exists s, 0, (1 - s). repeat split; try lra. dvec. tunf. apply V3_ext; ring.
 Qed.
 
-Lemma in_tri_hull t t' x : Forall (in_tri t) (tri_corners t') -> in_tri t' x -> in_tri t x.
+Lemma hull_nn t ds t' x : Forall (in_tri_nn t ds) (tri_corners t') -> in_tri t' x -> in_tri_nn t ds x.
 Proof.
   intros Hc (u0 & u1 & u2 & Hu0 & Hu1 & Hu2 & Hus & ->).
   unfold tri_corners in Hc. inversion Hc as [|? ? H0 Hc1]; subst. inversion Hc1 as [|? ? H1 Hc2]; subst.
   inversion Hc2 as [|? ? H2 _]; subst.
-  destruct H0 as (a0 & a1 & a2 & Ha0 & Ha1 & Ha2 & Has & E0).
-  destruct H1 as (b0 & b1 & b2 & Hb0 & Hb1 & Hb2 & Hbs & E1).
-  destruct H2 as (c0 & c1 & c2 & Hc0 & Hc1' & Hc2' & Hcs & E2).
+  destruct H0 as (a0 & a1 & a2 & Ha0 & Ha1 & Ha2 & Has & E0 & D0).
+  destruct H1 as (b0 & b1 & b2 & Hb0 & Hb1 & Hb2 & Hbs & E1 & D1).
+  destruct H2 as (c0 & c1 & c2 & Hc0 & Hc1' & Hc2' & Hcs & E2 & D2).
   exists (u0 * a0 + u1 * b0 + u2 * c0), (u0 * a1 + u1 * b1 + u2 * c1), (u0 * a2 + u1 * b2 + u2 * c2).
   repeat split.
   - repeat apply Rplus_le_le_0_compat; apply Rmult_le_pos; assumption.
@@ -117,13 +159,12 @@ Proof.
   - transitivity (u0 * (a0 + a1 + a2) + u1 * (b0 + b1 + b2) + u2 * (c0 + c1 + c2)); [ring|].
     rewrite Has, Hbs, Hcs. lra.
   - unfold bary at 1. cbn [tget] in *. rewrite E0, E1, E2. destruct t as [[p q] r]. dvec. tunf. apply V3_ext; ring.
-Qed.
-Lemma pd_hull n o t' x : Forall (fun c => 0 <= pd n o c) (tri_corners t') -> in_tri t' x -> 0 <= pd n o x.
-Proof.
-  intros Hc (u0 & u1 & u2 & Hu0 & Hu1 & Hu2 & Hus & ->). unfold pd. rewrite plane_dot_bary by exact Hus.
-  unfold tri_corners in Hc. inversion Hc as [|? ? H0 Hc1]; subst. inversion Hc1 as [|? ? H1 Hc2]; subst.
-  inversion Hc2 as [|? ? H2 _]; subst. unfold pd in *.
-  repeat apply Rplus_le_le_0_compat; apply Rmult_le_pos; assumption.
+  - unfold wdot in *.
+    replace ((u0 * a0 + u1 * b0 + u2 * c0) * dget ds 0 + (u0 * a1 + u1 * b1 + u2 * c1) * dget ds 1 +
+             (u0 * a2 + u1 * b2 + u2 * c2) * dget ds 2)
+      with (u0 * (a0 * dget ds 0 + a1 * dget ds 1 + a2 * dget ds 2) + u1 * (b0 * dget ds 0 + b1 * dget ds 1 + b2 * dget ds 2) +
+            u2 * (c0 * dget ds 0 + c1 * dget ds 1 + c2 * dget ds 2)) by ring.
+    repeat apply Rplus_le_le_0_compat; apply Rmult_le_pos; assumption.
 Qed.
 
 (* ---- crossing parameters --------------------------------------------------------------------------------------- *)
@@ -144,14 +185,16 @@ Qed.
 (* ---- the two cut shapes, corner 0 special ----------------------------------------------------------------------- *)
 Definition vsum_normals (l : list (tri R)) : vec3 R :=
   fold_right (fun t acc => vadd ROps (tri_normal t) acc) (V3 0 0 0) l.
-Definition corners_ok (n o : vec3 R) (t : tri R) (l : list (tri R)) : Prop :=
-  Forall (fun t' => Forall (fun v => in_tri t v /\ 0 <= pd n o v) (tri_corners t')) l.
+Definition corners_ok (t : tri R) (ds : R * R * R) (l : list (tri R)) : Prop :=
+  Forall (fun t' => Forall (in_tri_nn t ds) (tri_corners t')) l.
 Definition orient_ok (t : tri R) (l : list (tri R)) : Prop :=
   Forall (fun t' => exists lam, 0 <= lam /\ tri_normal t' = vscale ROps lam (tri_normal t)) l.
 Definition area_frac (t : tri R) (l : list (tri R)) (f : R) : Prop :=
   0 <= f <= 1 /\ vsum_normals l = vscale ROps f (tri_normal t).
+(* the fractions of the face's area that the two cut shapes keep, from the distances a (corner 0), b, c *)
+Definition frac_tri0 (a b c : R) : R := a / (a - b) * (1 - c / (c - a)).
+Definition frac_quad0 (a b c : R) : R := c / (c - a) + (1 - a / (a - b)) * (1 - c / (c - a)).
 
-(* orientation and area: polynomial identities in the crossing parameters *)
 Lemma tri0_normal a b c s u :
   tri_normal (a, lerp a b s, lerp c a u) = vscale ROps (s * (1 - u)) (tri_normal (a, b, c)).
 Proof. dvec. tunf. apply V3_ext; ring. Qed.
@@ -161,184 +204,170 @@ Proof. dvec. tunf. apply V3_ext; ring. Qed.
 Lemma quad0_normal2 a b c s u :
   tri_normal (b, lerp c a u, lerp a b s) = vscale ROps ((1 - s) * (1 - u)) (tri_normal (a, b, c)).
 Proof. dvec. tunf. apply V3_ext; ring. Qed.
+Lemma corners3 (P : vec3 R -> Prop) a b c : P a -> P b -> P c -> Forall P (tri_corners (a, b, c)).
+Proof. intros; unfold tri_corners; cbn [tget fst snd]; repeat (apply Forall_cons; [assumption|]); apply Forall_nil. Qed.
 
+Lemma tri0_lerp eps ds t : dget ds 0 <> dget ds 1 -> dget ds 2 <> dget ds 0 ->
+  tri0 eps ds t =
+  [(tget t 0, lerp (tget t 0) (tget t 1) (dget ds 0 / (dget ds 0 - dget ds 1)),
+    lerp (tget t 2) (tget t 0) (dget ds 2 / (dget ds 2 - dget ds 0)))].
+Proof. intros Ha Hb. unfold tri0. rewrite !int_point_lerp by assumption. reflexivity. Qed.
+Lemma quad0_lerp eps ds t : dget ds 0 <> dget ds 1 -> dget ds 2 <> dget ds 0 ->
+  quad0 eps ds t =
+  let p := lerp (tget t 2) (tget t 0) (dget ds 2 / (dget ds 2 - dget ds 0)) in
+  let q := lerp (tget t 0) (tget t 1) (dget ds 0 / (dget ds 0 - dget ds 1)) in
+  [(tget t 1, tget t 2, p); (tget t 1, p, q)].
+Proof. intros Ha Hb. unfold quad0. rewrite !int_point_lerp by assumption. reflexivity. Qed.
 
-Section Core.
-  Context (eps : R) (n o : vec3 R).
+Lemma tri0_sound eps ds t : 0 < dget ds 0 -> dget ds 1 <= 0 -> dget ds 2 <= 0 -> corners_ok t ds (tri0 eps ds t).
+Proof.
+  intros Ha Hb Hc. rewrite tri0_lerp by lra. unfold corners_ok.
+  apply Forall_cons; [|apply Forall_nil]. apply corners3.
+  - apply corner_nn; [lia|lra].
+  - apply lerp01_nn; [pose proof (param_pos_nonpos _ _ Ha Hb); lra|]. rewrite crossing_param_zero by lra. lra.
+  - apply lerp20_nn; [pose proof (param_nonpos_pos _ _ Hc Ha); lra|]. rewrite crossing_param_zero by lra. lra.
+Qed.
+Lemma quad0_sound eps ds t : dget ds 0 < 0 -> 0 < dget ds 1 -> 0 < dget ds 2 -> corners_ok t ds (quad0 eps ds t).
+Proof.
+  intros Ha Hb Hc. rewrite quad0_lerp by lra. unfold corners_ok. cbv zeta.
+  assert (Hp : in_tri_nn t ds (lerp (tget t 2) (tget t 0) (dget ds 2 / (dget ds 2 - dget ds 0)))).
+  { apply lerp20_nn; [pose proof (param_pos_nonpos _ _ Hc (Rlt_le _ _ Ha)); lra|]. rewrite crossing_param_zero by lra. lra. }
+  assert (Hq : in_tri_nn t ds (lerp (tget t 0) (tget t 1) (dget ds 0 / (dget ds 0 - dget ds 1)))).
+  { apply lerp01_nn; [pose proof (param_nonpos_pos _ _ (Rlt_le _ _ Ha) Hb); lra|]. rewrite crossing_param_zero by lra. lra. }
+  apply Forall_cons; [|apply Forall_cons; [|apply Forall_nil]]; apply corners3; try assumption;
+    try (apply corner_nn; [lia|lra]).
+Qed.
 
-  Lemma tri0_lerp t : pd n o (tget t 0) <> pd n o (tget t 1) -> pd n o (tget t 2) <> pd n o (tget t 0) ->
-    tri0 eps n o t =
-    [(tget t 0,
-      lerp (tget t 0) (tget t 1) (pd n o (tget t 0) / (pd n o (tget t 0) - pd n o (tget t 1))),
-      lerp (tget t 2) (tget t 0) (pd n o (tget t 2) / (pd n o (tget t 2) - pd n o (tget t 0))))].
-  Proof. intros Ha Hb. unfold tri0, pd in *. rewrite !int_point_lerp by assumption. reflexivity. Qed.
-
-  Lemma quad0_lerp t : pd n o (tget t 0) < 0 -> 0 < pd n o (tget t 1) -> 0 < pd n o (tget t 2) ->
-    quad0 eps n o t =
-    let p := lerp (tget t 2) (tget t 0) (pd n o (tget t 2) / (pd n o (tget t 2) - pd n o (tget t 0))) in
-    let q := lerp (tget t 0) (tget t 1) (pd n o (tget t 0) / (pd n o (tget t 0) - pd n o (tget t 1))) in
-    [(tget t 1, tget t 2, p); (tget t 1, p, q)].
-  Proof. intros Ha Hb Hc. unfold quad0, pd in *. rewrite !int_point_lerp by lra. reflexivity. Qed.
-
-  Lemma pd_lerp_zero p q : pd n o p <> pd n o q -> pd n o (lerp p q (pd n o p / (pd n o p - pd n o q))) = 0.
-  Proof. intros H. unfold pd in *. rewrite plane_dot_lerp. field. lra. Qed.
-
-  Lemma corners3 (P : vec3 R -> Prop) a b c : P a -> P b -> P c -> Forall P (tri_corners (a, b, c)).
-  Proof. intros; unfold tri_corners; cbn [tget fst snd]; repeat (apply Forall_cons; [assumption|]); apply Forall_nil. Qed.
-
-  Lemma tri0_sound t : 0 < pd n o (tget t 0) -> pd n o (tget t 1) <= 0 -> pd n o (tget t 2) <= 0 ->
-    corners_ok n o t (tri0 eps n o t).
-  Proof.
-    intros Ha Hb Hc. rewrite tri0_lerp by lra. unfold corners_ok.
-    apply Forall_cons; [|apply Forall_nil]. apply corners3; split.
-    - apply (corner_in_tri t 0). lia.
-    - lra.
-    - apply lerp01_in_tri. pose proof (param_pos_nonpos _ _ Ha Hb). lra.
-    - rewrite pd_lerp_zero by lra. lra.
-    - apply lerp20_in_tri. pose proof (param_nonpos_pos _ _ Hc Ha). lra.
-    - rewrite pd_lerp_zero by lra. lra.
-  Qed.
-
-  Lemma quad0_sound t : pd n o (tget t 0) < 0 -> 0 < pd n o (tget t 1) -> 0 < pd n o (tget t 2) ->
-    corners_ok n o t (quad0 eps n o t).
-  Proof.
-    intros Ha Hb Hc. rewrite quad0_lerp by assumption. unfold corners_ok. cbv zeta.
-    assert (Hp : 0 <= pd n o (tget t 2) / (pd n o (tget t 2) - pd n o (tget t 0)) <= 1)
-      by (pose proof (param_pos_nonpos _ _ Hc (Rlt_le _ _ Ha)); lra).
-    assert (Hq : 0 <= pd n o (tget t 0) / (pd n o (tget t 0) - pd n o (tget t 1)) <= 1)
-      by (pose proof (param_nonpos_pos _ _ (Rlt_le _ _ Ha) Hb); lra).
-    apply Forall_cons; [|apply Forall_cons; [|apply Forall_nil]]; apply corners3; split;
-      try (apply (corner_in_tri t 1); lia); try (apply (corner_in_tri t 2); lia); try lra;
-      try (apply lerp20_in_tri; exact Hp); try (apply lerp01_in_tri; exact Hq);
-      rewrite pd_lerp_zero by lra; lra.
-  Qed.
-
-  Lemma tri0_orient t : 0 < pd n o (tget t 0) -> pd n o (tget t 1) < pd n o (tget t 0) ->
-    pd n o (tget t 2) < pd n o (tget t 0) -> orient_ok t (tri0 eps n o t).
-  Proof.
-    intros Ha Hb Hc. rewrite tri0_lerp by lra.
-    assert (Hs : 0 < pd n o (tget t 0) / (pd n o (tget t 0) - pd n o (tget t 1)))
-      by (apply Rdiv_lt_0_compat; lra).
-    assert (Hu : 0 < 1 - pd n o (tget t 2) / (pd n o (tget t 2) - pd n o (tget t 0))).
-    { replace (1 - pd n o (tget t 2) / (pd n o (tget t 2) - pd n o (tget t 0)))
-        with (pd n o (tget t 0) / (pd n o (tget t 0) - pd n o (tget t 2))) by (field; lra).
-      apply Rdiv_lt_0_compat; lra. }
-    set (s := pd n o (tget t 0) / _) in *. set (u := pd n o (tget t 2) / _) in *. clearbody s u.
-    destruct t as [[a b] c]. cbn [tget fst snd] in *.
-    constructor; [|constructor]. exists (s * (1 - u)). split; [nra|]. apply tri0_normal.
-  Qed.
-
-  Lemma tri0_area t : 0 < pd n o (tget t 0) -> pd n o (tget t 1) <= 0 -> pd n o (tget t 2) <= 0 ->
-    area_frac t (tri0 eps n o t)
-      (pd n o (tget t 0) / (pd n o (tget t 0) - pd n o (tget t 1)) *
-       (1 - pd n o (tget t 2) / (pd n o (tget t 2) - pd n o (tget t 0)))).
-  Proof.
-    intros Ha Hb Hc. rewrite tri0_lerp by lra.
-    pose proof (param_pos_nonpos _ _ Ha Hb) as Hs. pose proof (param_nonpos_pos _ _ Hc Ha) as Hu.
-    set (s := pd n o (tget t 0) / _) in *. set (u := pd n o (tget t 2) / _) in *. clearbody s u.
-    destruct t as [[a b] c]. cbn [tget fst snd] in *.
-    split; [nra|]. unfold vsum_normals. cbn [fold_right]. rewrite tri0_normal.
+Lemma tri0_orient eps ds t : 0 < dget ds 0 -> dget ds 1 < dget ds 0 -> dget ds 2 < dget ds 0 -> orient_ok t (tri0 eps ds t).
+Proof.
+  intros Ha Hb Hc. rewrite tri0_lerp by lra.
+  assert (Hs : 0 < dget ds 0 / (dget ds 0 - dget ds 1)) by (apply Rdiv_lt_0_compat; lra).
+  assert (Hu : 0 < 1 - dget ds 2 / (dget ds 2 - dget ds 0)).
+  { replace (1 - dget ds 2 / (dget ds 2 - dget ds 0)) with (dget ds 0 / (dget ds 0 - dget ds 2)) by (field; lra).
+    apply Rdiv_lt_0_compat; lra. }
+  set (s := dget ds 0 / _) in *. set (u := dget ds 2 / _) in *. clearbody s u.
+  destruct t as [[a b] c]. cbn [tget fst snd] in *.
+  constructor; [|constructor]. exists (s * (1 - u)). split; [nra|]. apply tri0_normal.
+Qed.
+Lemma tri0_area eps ds t : 0 < dget ds 0 -> dget ds 1 <= 0 -> dget ds 2 <= 0 ->
+  area_frac t (tri0 eps ds t) (frac_tri0 (dget ds 0) (dget ds 1) (dget ds 2)).
+Proof.
+  intros Ha Hb Hc. rewrite tri0_lerp by lra. unfold frac_tri0.
+  pose proof (param_pos_nonpos _ _ Ha Hb) as Hs. pose proof (param_nonpos_pos _ _ Hc Ha) as Hu.
+  set (s := dget ds 0 / _) in *. set (u := dget ds 2 / _) in *. clearbody s u.
+  destruct t as [[a b] c]. cbn [tget fst snd] in *.
+  split; [nra|]. unfold vsum_normals. cbn [fold_right]. rewrite tri0_normal.
+  destruct (tri_normal (a, b, c)). vunf. apply V3_ext; ring.
+Qed.
+Lemma quad0_orient_area eps ds t : dget ds 0 < 0 -> 0 < dget ds 1 -> 0 < dget ds 2 ->
+  orient_ok t (quad0 eps ds t) /\ area_frac t (quad0 eps ds t) (frac_quad0 (dget ds 0) (dget ds 1) (dget ds 2)).
+Proof.
+  intros Ha Hb Hc. rewrite quad0_lerp by lra. unfold frac_quad0.
+  pose proof (param_pos_nonpos _ _ Hc (Rlt_le _ _ Ha)) as Hu. pose proof (param_nonpos_pos _ _ (Rlt_le _ _ Ha) Hb) as Hs.
+  set (u := dget ds 2 / _) in *. set (s := dget ds 0 / _) in *. clearbody s u.
+  destruct t as [[a b] c]. cbn [tget fst snd] in *. cbv zeta.
+  assert (Hl : 0 <= (1 - s) * (1 - u)) by nra.
+  split.
+  - constructor; [|constructor; [|constructor]].
+    + exists u. split; [lra|]. apply quad0_normal1.
+    + exists ((1 - s) * (1 - u)). split; [lra|]. apply quad0_normal2.
+  - split; [nra|]. unfold vsum_normals. cbn [fold_right]. rewrite quad0_normal1, quad0_normal2.
     destruct (tri_normal (a, b, c)). vunf. apply V3_ext; ring.
-  Qed.
-
-  Lemma quad0_orient_area t : pd n o (tget t 0) < 0 -> 0 < pd n o (tget t 1) -> 0 < pd n o (tget t 2) ->
-    orient_ok t (quad0 eps n o t) /\
-    area_frac t (quad0 eps n o t)
-      (pd n o (tget t 2) / (pd n o (tget t 2) - pd n o (tget t 0)) +
-       (1 - pd n o (tget t 0) / (pd n o (tget t 0) - pd n o (tget t 1))) *
-       (1 - pd n o (tget t 2) / (pd n o (tget t 2) - pd n o (tget t 0)))).
-  Proof.
-    intros Ha Hb Hc. rewrite quad0_lerp by assumption.
-    pose proof (param_pos_nonpos _ _ Hc (Rlt_le _ _ Ha)) as Hu. pose proof (param_nonpos_pos _ _ (Rlt_le _ _ Ha) Hb) as Hs.
-    set (u := pd n o (tget t 2) / _) in *. set (s := pd n o (tget t 0) / _) in *. clearbody s u.
-    destruct t as [[a b] c]. cbn [tget fst snd] in *. cbv zeta.
-    assert (Hl : 0 <= (1 - s) * (1 - u)) by nra.
-    split.
-    - constructor; [|constructor; [|constructor]].
-      + exists u. split; [lra|]. apply quad0_normal1.
-      + exists ((1 - s) * (1 - u)). split; [lra|]. apply quad0_normal2.
-    - split; [nra|]. unfold vsum_normals. cbn [fold_right]. rewrite quad0_normal1, quad0_normal2.
-      destruct (tri_normal (a, b, c)). vunf. apply V3_ext; ring.
-  Qed.
-End Core.
+Qed.
 
 (* ---- the per-face kernel ---------------------------------------------------------------------------------------- *)
-(* H0: a corner that is classified "on" lies exactly on the plane *)
-Definition H0 (tol : R) (n o : vec3 R) (t : tri R) : Prop :=
-  forall k, (k < 3)%nat -> - tol <= pd n o (tget t k) <= tol -> pd n o (tget t k) = 0.
-
-Lemma corners_ok_use n o t l t' x : corners_ok n o t l -> In t' l -> in_tri t' x -> in_tri t x /\ 0 <= pd n o x.
+Lemma corners_ok_use t ds l t' x : corners_ok t ds l -> In t' l -> in_tri t' x -> in_tri_nn t ds x.
 Proof.
-  intros Hc Hin Hx. unfold corners_ok in Hc. rewrite Forall_forall in Hc. specialize (Hc _ Hin). split.
-  - apply (in_tri_hull t t'); [|exact Hx]. eapply Forall_impl; [|exact Hc]. intros v [H _]; exact H.
-  - apply (pd_hull n o t'); [|exact Hx]. eapply Forall_impl; [|exact Hc]. intros v [_ H]; exact H.
+  intros Hc Hin Hx. unfold corners_ok in Hc. rewrite Forall_forall in Hc. apply (hull_nn t ds t'); [apply Hc, Hin|exact Hx].
 Qed.
-Lemma corners_ok_rot n o t k l : (k < 3)%nat -> corners_ok n o (rot3 t k) l -> corners_ok n o t l.
+Lemma corners_ok_rot t ds k l : (k < 3)%nat -> corners_ok (rot3 t k) (rotd ds k) l -> corners_ok t ds l.
 Proof.
   intros Hk H. unfold corners_ok in *. eapply Forall_impl; [|exact H]. intros t' H'.
-  eapply Forall_impl; [|exact H']. intros v [H1 H2]. split; [apply (in_tri_rot t k v Hk); exact H1|exact H2].
+  eapply Forall_impl; [|exact H']. intros v Hv. apply (in_tri_nn_rot t ds k v Hk Hv).
 Qed.
 Lemma orient_ok_rot t k l : (k < 3)%nat -> orient_ok (rot3 t k) l -> orient_ok t l.
 Proof. intros Hk H. unfold orient_ok in *. rewrite tri_normal_rot in H by exact Hk. exact H. Qed.
-Lemma H0_nonpos tol n o t k : 0 <= tol -> H0 tol n o t -> (k < 3)%nat -> pd n o (tget t k) <= tol -> pd n o (tget t k) <= 0.
-Proof.
-  intros Ht H Hk Hd. destruct (Rle_dec (- tol) (pd n o (tget t k))) as [Hl|Hl]; [|lra].
-  rewrite (H k Hk); lra.
-Qed.
-Lemma H0_nonneg tol n o t k : 0 <= tol -> H0 tol n o t -> (k < 3)%nat -> - tol <= pd n o (tget t k) -> 0 <= pd n o (tget t k).
-Proof.
-  intros Ht H Hk Hd. destruct (Rle_dec (pd n o (tget t k)) tol) as [Hl|Hl]; [|lra].
-  rewrite (H k Hk); lra.
-Qed.
 Lemma mod3_lt k : ((k + 1) mod 3 < 3)%nat /\ ((k + 2) mod 3 < 3)%nat.
 Proof. split; apply Nat.mod_upper_bound; lia. Qed.
 
-Theorem slice_face_sound tol eps n o m t t' x : 0 <= tol -> H0 tol n o t ->
-  In t' (slice_face ROps tol eps n o m t) -> in_tri t' x ->
-  in_tri t x /\ (m = true -> 0 <= pd n o x).
+(* soundness on the distances the kernel uses: every point of every output triangle lies in the input face, and (selected
+   faces) its interpolated distance is not negative *)
+Theorem slice_face_signs_sound tol eps ds m t t' x : 0 <= tol -> snapped3 tol ds ->
+  In t' (slice_face_signs ROps eps ds (signs3 ROps tol ds) m t) -> in_tri t' x ->
+  in_tri t x /\ (m = true -> in_tri_nn t ds x).
 Proof.
-  intros Ht HH Hin Hx. unfold slice_face, slice_face_signs in Hin.
-  pose proof (face_case_facts tol n o t m Ht) as Hf.
-  destruct (face_case (tri_signs ROps tol n o t) m) as [| |k|k].
+  intros Ht HS Hin Hx. unfold slice_face_signs in Hin.
+  pose proof (face_case_facts tol ds m Ht) as Hf.
+  destruct (face_case (signs3 ROps tol ds) m) as [| |k|k].
   - destruct Hin as [<-|[]]. split; [exact Hx|]. intros Hm. destruct Hf as [Hf|Hf]; [congruence|].
-    apply (pd_hull n o t x); [|exact Hx]. destruct t as [[a b] c]. apply corners3.
-    + apply (H0_nonneg tol n o (a, b, c) 0 Ht HH); [lia|apply Hf; lia].
-    + apply (H0_nonneg tol n o (a, b, c) 1 Ht HH); [lia|apply Hf; lia].
-    + apply (H0_nonneg tol n o (a, b, c) 2 Ht HH); [lia|apply Hf; lia].
+    apply (hull_nn t ds t x); [|exact Hx]. destruct t as [[a b] c]. apply corners3.
+    + apply (corner_nn (a, b, c) ds 0); [lia|]. apply (snapped_nonneg tol ds 0 Ht HS); [lia|apply Hf; lia].
+    + apply (corner_nn (a, b, c) ds 1); [lia|]. apply (snapped_nonneg tol ds 1 Ht HS); [lia|apply Hf; lia].
+    + apply (corner_nn (a, b, c) ds 2); [lia|]. apply (snapped_nonneg tol ds 2 Ht HS); [lia|apply Hf; lia].
   - destruct Hin.
   - destruct Hf as (Hm & Hk & Ha & Hb & Hc). rewrite quad_tris_rot in Hin by exact Hk.
-    assert (Hok : corners_ok n o t (quad0 eps n o (rot3 t k))).
-    { apply (corners_ok_rot n o t k _ Hk). apply quad0_sound; unfold rot3; cbn [tget fst snd]; lra. }
-    destruct (corners_ok_use _ _ _ _ _ _ Hok Hin Hx) as [H1 H2]. split; [exact H1|intros _; exact H2].
+    assert (Hok : corners_ok t ds (quad0 eps (rotd ds k) (rot3 t k))).
+    { apply (corners_ok_rot t ds k _ Hk). apply quad0_sound; unfold rotd; cbn [dget fst snd]; lra. }
+    pose proof (corners_ok_use _ _ _ _ _ Hok Hin Hx) as H. split; [apply (in_tri_nn_in_tri _ _ _ H)|intros _; exact H].
   - destruct Hf as (Hm & Hk & Ha & Hb & Hc). rewrite cut_tris_rot in Hin by exact Hk.
     destruct (mod3_lt k) as [Hk1 Hk2].
-    assert (Hok : corners_ok n o t (tri0 eps n o (rot3 t k))).
-    { apply (corners_ok_rot n o t k _ Hk). apply tri0_sound; unfold rot3; cbn [tget fst snd].
+    assert (Hok : corners_ok t ds (tri0 eps (rotd ds k) (rot3 t k))).
+    { apply (corners_ok_rot t ds k _ Hk). apply tri0_sound; unfold rotd; cbn [dget fst snd].
       - lra.
-      - apply (H0_nonpos tol n o t _ Ht HH Hk1 Hb).
-      - apply (H0_nonpos tol n o t _ Ht HH Hk2 Hc). }
-    destruct (corners_ok_use _ _ _ _ _ _ Hok Hin Hx) as [H1 H2]. split; [exact H1|intros _; exact H2].
+      - apply (snapped_nonpos tol ds _ Ht HS Hk1 Hb).
+      - apply (snapped_nonpos tol ds _ Ht HS Hk2 Hc). }
+    pose proof (corners_ok_use _ _ _ _ _ Hok Hin Hx) as H. split; [apply (in_tri_nn_in_tri _ _ _ H)|intros _; exact H].
 Qed.
 
-(* orientation needs no H0: every output triangle's normal is a non-negative multiple of the input face's *)
-Theorem slice_face_orient tol eps n o m t t' : 0 <= tol ->
-  In t' (slice_face ROps tol eps n o m t) ->
+(* the interpolated snapped distance of a point of the face is within tol of its true distance *)
+Lemma wdot_close tol n o t w0 w1 w2 : 0 <= tol -> 0 <= w0 -> 0 <= w1 -> 0 <= w2 -> w0 + w1 + w2 = 1 ->
+  pd n o (bary t w0 w1 w2) - tol <= wdot (tri_dists ROps tol n o t) w0 w1 w2 <= pd n o (bary t w0 w1 w2) + tol.
+Proof.
+  intros Ht H0 H1 H2 Hs. unfold pd. rewrite plane_dot_bary by exact Hs. unfold wdot. rewrite !dget_tri_dists by lia.
+  pose proof (snap_close tol (plane_dot ROps n o (tget t 0)) Ht) as C0.
+  pose proof (snap_close tol (plane_dot ROps n o (tget t 1)) Ht) as C1.
+  pose proof (snap_close tol (plane_dot ROps n o (tget t 2)) Ht) as C2.
+  set (p0 := plane_dot ROps n o (tget t 0)) in *. set (p1 := plane_dot ROps n o (tget t 1)) in *.
+  set (p2 := plane_dot ROps n o (tget t 2)) in *.
+  set (s0 := snap ROps tol p0) in *. set (s1 := snap ROps tol p1) in *. set (s2 := snap ROps tol p2) in *.
+  clearbody p0 p1 p2 s0 s1 s2. replace w2 with (1 - w0 - w1) in * by lra. nra.
+Qed.
+
+(* soundness in true distances: every point of every output triangle lies in the input face and, for a selected face, is
+   not behind the plane by more than the tolerance *)
+Theorem slice_face_sound tol eps n o m t t' x : 0 <= tol ->
+  In t' (slice_face ROps tol eps n o m t) -> in_tri t' x ->
+  in_tri t x /\ (m = true -> - tol <= pd n o x).
+Proof.
+  intros Ht Hin Hx. unfold slice_face, tri_signs in Hin.
+  destruct (slice_face_signs_sound tol eps _ m t t' x Ht (tri_dists_snapped tol n o t Ht) Hin Hx) as [H1 H2].
+  split; [exact H1|]. intros Hm. destruct (H2 Hm) as (w0 & w1 & w2 & H0' & H1' & H2' & Hs & -> & Hd).
+  pose proof (wdot_close tol n o t w0 w1 w2 Ht H0' H1' H2' Hs). lra.
+Qed.
+
+(* orientation: every output triangle's normal is a non-negative multiple of the input face's *)
+Theorem slice_face_signs_orient tol eps ds m t t' : 0 <= tol ->
+  In t' (slice_face_signs ROps eps ds (signs3 ROps tol ds) m t) ->
   exists lam, 0 <= lam /\ tri_normal t' = vscale ROps lam (tri_normal t).
 Proof.
-  intros Ht Hin. unfold slice_face, slice_face_signs in Hin.
-  pose proof (face_case_facts tol n o t m Ht) as Hf.
-  destruct (face_case (tri_signs ROps tol n o t) m) as [| |k|k].
+  intros Ht Hin. unfold slice_face_signs in Hin.
+  pose proof (face_case_facts tol ds m Ht) as Hf.
+  destruct (face_case (signs3 ROps tol ds) m) as [| |k|k].
   - destruct Hin as [<-|[]]. exists 1. split; [lra|]. destruct (tri_normal t). vunf. apply V3_ext; ring.
   - destruct Hin.
   - destruct Hf as (Hm & Hk & Ha & Hb & Hc). rewrite quad_tris_rot in Hin by exact Hk.
-    assert (Hok : orient_ok t (quad0 eps n o (rot3 t k))).
-    { apply (orient_ok_rot t k _ Hk). apply quad0_orient_area; unfold rot3; cbn [tget fst snd]; lra. }
+    assert (Hok : orient_ok t (quad0 eps (rotd ds k) (rot3 t k))).
+    { apply (orient_ok_rot t k _ Hk). apply quad0_orient_area; unfold rotd; cbn [dget fst snd]; lra. }
     unfold orient_ok in Hok. rewrite Forall_forall in Hok. exact (Hok _ Hin).
   - destruct Hf as (Hm & Hk & Ha & Hb & Hc). rewrite cut_tris_rot in Hin by exact Hk.
-    assert (Hok : orient_ok t (tri0 eps n o (rot3 t k))).
-    { apply (orient_ok_rot t k _ Hk). apply tri0_orient; unfold rot3; cbn [tget fst snd]; lra. }
+    assert (Hok : orient_ok t (tri0 eps (rotd ds k) (rot3 t k))).
+    { apply (orient_ok_rot t k _ Hk). apply tri0_orient; unfold rotd; cbn [dget fst snd]; lra. }
     unfold orient_ok in Hok. rewrite Forall_forall in Hok. exact (Hok _ Hin).
 Qed.
+Theorem slice_face_orient tol eps n o m t t' : 0 <= tol ->
+  In t' (slice_face ROps tol eps n o m t) ->
+  exists lam, 0 <= lam /\ tri_normal t' = vscale ROps lam (tri_normal t).
+Proof. intros Ht Hin. exact (slice_face_signs_orient tol eps _ m t t' Ht Hin). Qed.
 
 (* ---- the case rules of the property text, pattern by pattern ------------------------------------------------ *)
 Definition all_le0 (s : sgn3) : bool := ((sget s 0 <=? 0) && (sget s 1 <=? 0) && (sget s 2 <=? 0))%Z.
@@ -364,11 +393,9 @@ Proof. destruct a, b; cbn; try discriminate; try reflexivity; intros H; apply Na
 Lemma face_case_expected :
   forallb (fun s => forallb (fun m => fcase_eqb (face_case s m) (expected_case s m)) [true; false]) all_patterns = true.
 Proof. vm_compute. reflexivity. Qed.
-
-Lemma face_case_is_expected tol n o t m :
-  face_case (tri_signs ROps tol n o t) m = expected_case (tri_signs ROps tol n o t) m.
+Lemma face_case_is_expected tol ds m : face_case (signs3 ROps tol ds) m = expected_case (signs3 ROps tol ds) m.
 Proof.
-  pose proof face_case_expected as H. rewrite forallb_forall in H. specialize (H _ (tri_signs_pattern tol n o t)).
+  pose proof face_case_expected as H. rewrite forallb_forall in H. specialize (H _ (signs3_pattern tol ds)).
   rewrite forallb_forall in H. apply fcase_eqb_eq, H. destruct m; cbn; auto.
 Qed.
 
@@ -378,31 +405,36 @@ Lemma vsign_ge0_of tol d : d <= tol -> (0 <= vsign ROps tol d)%Z.
 Proof. intros H. unfold vsign; rops. destruct (Rltb_spec tol d); [lra|]. destruct (Rltb_spec d (- tol)); lia. Qed.
 
 Lemma slice_face_unselected tol eps n o t : slice_face ROps tol eps n o false t = [t].
-Proof. unfold slice_face, slice_face_signs. rewrite face_case_is_expected. reflexivity. Qed.
+Proof. unfold slice_face, slice_face_signs, tri_signs. rewrite face_case_is_expected. reflexivity. Qed.
 
-Lemma slice_face_keep tol eps n o m t :
+(* a face whose corners are all on or in front (true distance >= -tol) is returned whole *)
+Lemma slice_face_keep tol eps n o m t : 0 <= tol ->
   (forall k, (k < 3)%nat -> - tol <= pd n o (tget t k)) -> slice_face ROps tol eps n o m t = [t].
 Proof.
-  intros H. unfold slice_face, slice_face_signs. rewrite face_case_is_expected. unfold expected_case.
+  intros Ht H. unfold slice_face, slice_face_signs, tri_signs. rewrite face_case_is_expected. unfold expected_case.
   destruct m; [|reflexivity]. cbn [negb].
-  assert (E : all_le0 (tri_signs ROps tol n o t) = true).
-  { unfold all_le0. rewrite !sget_tri_signs by lia. rewrite !andb_true_iff, !Z.leb_le.
-    repeat split; apply vsign_le0_of; apply H; lia. }
+  assert (E : all_le0 (signs3 ROps tol (tri_dists ROps tol n o t)) = true).
+  { unfold all_le0. rewrite !sget_signs3, !dget_tri_dists by lia. rewrite !andb_true_iff, !Z.leb_le.
+    repeat split; apply vsign_le0_of; match goal with |- _ <= snap ROps _ ?d => pose proof (snap_cases tol d Ht) end;
+      [specialize (H 0%nat ltac:(lia))|specialize (H 1%nat ltac:(lia))|specialize (H 2%nat ltac:(lia))]; unfold pd in H; lra. }
   rewrite E. reflexivity.
 Qed.
-
+(* a selected face with no corner in front (all true distances <= tol) and a corner behind (< -tol) is dropped *)
 Lemma slice_face_drop tol eps n o t : 0 <= tol ->
   (forall k, (k < 3)%nat -> pd n o (tget t k) <= tol) -> (exists k, (k < 3)%nat /\ pd n o (tget t k) < - tol) ->
   slice_face ROps tol eps n o true t = [].
 Proof.
-  intros Ht H (k & Hk & Hb). unfold slice_face, slice_face_signs. rewrite face_case_is_expected. unfold expected_case.
+  intros Ht H (k & Hk & Hb). unfold slice_face, slice_face_signs, tri_signs. rewrite face_case_is_expected. unfold expected_case.
   cbn [negb].
-  assert (E1 : all_le0 (tri_signs ROps tol n o t) = false).
-  { apply not_true_is_false. unfold all_le0. rewrite !andb_true_iff, !Z.leb_le, !sget_tri_signs by lia.
-    intros [[H0' H1'] H2']. apply (vsign_behind tol _ Ht) in Hb. unfold pd in Hb.
-    destruct k as [|[|[|k]]]; try lia; rewrite Hb in *; lia. }
-  assert (E2 : all_ge0 (tri_signs ROps tol n o t) = true).
-  { unfold all_ge0. rewrite !sget_tri_signs by lia. rewrite !andb_true_iff, !Z.leb_le.
-    repeat split; apply vsign_ge0_of; apply H; lia. }
+  assert (E1 : all_le0 (signs3 ROps tol (tri_dists ROps tol n o t)) = false).
+  { apply not_true_is_false. unfold all_le0. rewrite !andb_true_iff, !Z.leb_le, !sget_signs3, !dget_tri_dists by lia.
+    intros [[H0' H1'] H2']. unfold pd in Hb.
+    assert (Hs : vsign ROps tol (snap ROps tol (plane_dot ROps n o (tget t k))) = 1%Z).
+    { apply (vsign_behind tol _ Ht). pose proof (snap_cases tol (plane_dot ROps n o (tget t k)) Ht). lra. }
+    destruct k as [|[|[|k]]]; try lia; rewrite Hs in *; lia. }
+  assert (E2 : all_ge0 (signs3 ROps tol (tri_dists ROps tol n o t)) = true).
+  { unfold all_ge0. rewrite !sget_signs3, !dget_tri_dists by lia. rewrite !andb_true_iff, !Z.leb_le.
+    repeat split; apply vsign_ge0_of; match goal with |- snap ROps _ ?d <= _ => pose proof (snap_cases tol d Ht) end;
+      [specialize (H 0%nat ltac:(lia))|specialize (H 1%nat ltac:(lia))|specialize (H 2%nat ltac:(lia))]; unfold pd in H; lra. }
   rewrite E1, E2. reflexivity.
 Qed.
